@@ -41,6 +41,9 @@ func Substr[T ~string](str T, offset, length int) T {
 		end = newLength
 	} else {
 		end = offset + length
+		if end < offset { // offset + length overflows: the selection runs to the end of the string
+			end = len(str)
+		}
 	}
 
 	if end > len(str) {
